@@ -534,7 +534,7 @@ func checkC12(R *Run) {
 		ok := false
 		for _, ci := range callsIn(l) {
 			c := ci.Common()
-			if calleeName(c) == "builtin.delete" && c.Args[1] == ssa.Value(l.Params[2]) {
+			if calleeName(c) == "builtin.delete" && stripConv(resolveLocal(stripConv(c.Args[1]))) == ssa.Value(l.Params[2]) {
 				if f, isF := loadedField(c.Args[0]); isF && f == "hotline.PrivateChat.ClientConn" {
 					ok = true
 				}
@@ -621,6 +621,12 @@ func (P *Prog) derivesAll(v ssa.Value, pred func(ssa.Value) bool) bool {
 				}
 			}
 			return len(rets) > 0
+		case *ssa.UnOp, *ssa.Field:
+			// a local (struct) variable that only carries the value
+			if r := resolveLocal(x); r != x {
+				return walk(r)
+			}
+			return false
 		case *ssa.Parameter:
 			if P == nil || y.Parent() == nil {
 				return false
